@@ -4,3 +4,8 @@ import LibfiveTheorems.C07
 #print axioms Libfive.C07.remap_is_composition
 #print axioms Libfive.C07.apply_is_lexical_substitution
 #print axioms Libfive.C07.flatten_sound
+#print axioms Libfive.C07.optimize_sound
+#print axioms Libfive.C07.optimized_sound
+#print axioms Libfive.C07.eq_sound
+#print axioms Libfive.C07.collapse_sound
+#print axioms Libfive.C07.Iq_lawful
